@@ -370,7 +370,7 @@ class EtherCat(Protocol):
             data = await self.roundtrip_packet(packet)
             for start, stop, future in dgrams:
                 wkc, = unpack_from("<H", data, stop)
-                if wkc == 0:
+                if wkc == 0 and not future.done():
                     future.set_exception(
                         EtherCatError("datagram was not processed"))
                 elif not future.done():
